@@ -32,13 +32,16 @@ CONSTANTS Slots,        \* ingress slots; creation order is the slot number
 
 VARIABLES ing,    \* slot -> template id | "none"
           eps,    \* service -> endpoint set id
-          sec,    \* secret -> "absent" | "bad" | "v1" | "v2"
+          sec,    \* secret -> "absent" | "bad" | "v1" | "v2" | "w1" | "w2"
           batch,  \* events of the batch being collected
           hist    \* closed batches
 
 vars == <<ing, eps, sec, batch, hist>>
 
 None == "none"
+
+(* secret values that hold a usable certificate: v1/v2 are private to the secret, w1/w2 have the same content in every secret *)
+ValidSec == {"v1", "v2", "w1", "w2"}
 
 ---------------------------------------------------------------------------
 (* FullModel: the documented meaning of a cluster state *)
@@ -65,7 +68,7 @@ TLSHosts(g) == {t.h : t \in UNION {TmplTLS(g[i]) : i \in {j \in Slots : Live(j, 
 (* hosts served with a certificate of their own (the others get the default one) *)
 Certs(g, sc) ==
     {[h |-> h, c |-> TmplSecret(g[TLSOwner(g, h)], h)] :
-        h \in {x \in TLSHosts(g) : sc[TmplSecret(g[TLSOwner(g, x)], x)] \in {"v1", "v2"}}}
+        h \in {x \in TLSHosts(g) : sc[TmplSecret(g[TLSOwner(g, x)], x)] \in ValidSec}}
 
 Backends(g, e) ==
     {[s |-> s, eps |-> EpsReady(e[s])] : s \in {r.s : r \in Routes(g)}}
@@ -129,7 +132,7 @@ Spec == Init /\ [][Next]_vars
 OracleOK ==
     LET m == FullModel(ing, eps, sec) IN
     /\ \A r \in m.routes : RouteOwner(ing, r.h, r.p, r.ty) \in Slots /\ r.s \in Svcs
-    /\ \A c \in m.crts : TLSOwner(ing, c.h) \in Slots /\ sec[c.c] \in {"v1", "v2"}
+    /\ \A c \in m.crts : TLSOwner(ing, c.h) \in Slots /\ sec[c.c] \in ValidSec
     /\ \A b \in m.backs : \E r \in m.routes : r.s = b.s
     /\ \A r1, r2 \in m.routes : (r1.h = r2.h /\ r1.p = r2.p /\ r1.ty = r2.ty) => r1 = r2
 
